@@ -6,8 +6,10 @@
 (* many bytes it takes); the harness maps the codes to characters:         *)
 (*    1 'a'   2 'b'   3 ' '   4 'A'   5 'e-acute'   6 'B'   7 'E-acute'    *)
 (*    8 a CJK character      10..19 the digits '0'..'9'                    *)
-(*   20 '.'  21 '-'  22 ','  23 '%'  24 '#'                                *)
-(* 4/6/7 are the upper-case twins of 1/2/5 (EXACT, UPPER, LOWER).          *)
+(*   20 '.'  21 '-'  22 ','  23 '%'  24 '#'  25 'E'  26 '+'  27 'e'        *)
+(* 4/6/7/25 are the upper-case twins of 1/2/5/27 (EXACT, UPPER, LOWER);    *)
+(* 'E' and '+' only occur in the rendering of a very large or very small   *)
+(* number ("1E+21"), 'e' in its LOWER().                                   *)
 (*                                                                         *)
 (* Values are tagged tuples: <<"S", text>>, <<"N", n>>, <<"B", TRUE>>,     *)
 (* <<"E", "#VALUE!">>, and <<"U">> = "the property statement does not fix  *)
@@ -16,9 +18,12 @@
 (* The enumerator machine has one variable for the text under test (s), a  *)
 (* tag telling whether s was typed (built by AppendChar) or is the Excel   *)
 (* rendering of the number k/10^j (the slicing functions must treat the    *)
-(* number 3.0 as the text "3"), and the format of TEXT() under             *)
-(* construction (built by AppendFmt along the format grammar; every        *)
-(* complete format is judged against every number of Nums).                *)
+(* number 3.0 as the text "3", 0.00001 as "0.00001" and 10^21 as "1E+21":  *)
+(* the General format, see General below; the Scale action moves the       *)
+(* decimal point of a number one place at a time through every magnitude   *)
+(* of ScaleJ), and the format of TEXT() under construction (built by       *)
+(* AppendFmt along the format grammar; every complete format is judged     *)
+(* against every number of Nums).                                          *)
 (* The laws named in the property are invariants over the definitions;     *)
 (* Export prints one JSON vector per state for the conformance run.        *)
 (***************************************************************************)
@@ -33,10 +38,16 @@ CONSTANTS Alphabet,   \* symbol codes a typed text is built from
           NewTexts,   \* replacement / second-operand texts t
           FindLen,    \* search texts: every text over Alphabet up to this length
           Nums,       \* set of <<k, j>>: the number k / 10^j  (j in 0..8)
+          Scaled,     \* set of <<k, j>>: numbers whose decimal point the machine moves
+                      \* (k without trailing zeros, so that j fixes the magnitude)
+          ScaleJ,     \* ... through every j of this interval; j < 0 stands for
+                      \* k * 10^(-j)  (<<1, -21>> is 10^21, <<1, 5>> is 0.00001)
           FmtMax      \* longest TEXT() format
 
 VARIABLES s,          \* the text under test
           src,        \* <<"T", 0, 0>> typed text, <<"N", k, j>> rendering of k/10^j,
+                      \* <<"U", k, j>> the number k/10^j at a magnitude where Excel's
+                      \* rendering is not judged (s stays empty),
                       \* <<"F", 0, 0>> the format machine (s stays empty)
           fmt         \* format under construction (<<>> in the slicing states)
 vars == <<s, src, fmt>>
@@ -45,10 +56,14 @@ vars == <<s, src, fmt>>
 (* symbols *)
 SP == 3
 c0 == 10   DOT == 20   MINUS == 21   COMMA == 22   PCT == 23   HASH == 24
-LowerOf == [c \in 1..24 |-> CASE c = 4 -> 1 [] c = 6 -> 2 [] c = 7 -> 5 [] OTHER -> c]
-UpperOf == [c \in 1..24 |-> CASE c = 1 -> 4 [] c = 2 -> 6 [] c = 5 -> 7 [] OTHER -> c]
-LowerCase == {1, 2, 5}     \* letters that have an upper-case twin
-UpperCase == {4, 6, 7}
+EE == 25   PLUS == 26   LE == 27
+Codes == 1..27
+LowerOf == [c \in Codes |-> CASE c = 4 -> 1 [] c = 6 -> 2 [] c = 7 -> 5 [] c = EE -> LE
+                               [] OTHER -> c]
+UpperOf == [c \in Codes |-> CASE c = 1 -> 4 [] c = 2 -> 6 [] c = 5 -> 7 [] c = LE -> EE
+                               [] OTHER -> c]
+LowerCase == {1, 2, 5, LE}     \* letters that have an upper-case twin
+UpperCase == {4, 6, 7, EE}
 
 (* values *)
 T(x)     == <<"S", x>>
@@ -204,9 +219,10 @@ Pow10(e) == IF e = 0 THEN 1 ELSE 10 * Pow10(e - 1)
 RECURSIVE ValueOf(_)             \* only used where it fits 32 bits
 ValueOf(d) == IF d = <<>> THEN 0 ELSE 10 * ValueOf(SubSeq(d, 1, Len(d) - 1)) + (d[Len(d)] - c0)
 
-\* How Excel shows the number k/10^j in & and in the text functions:
-\* sign, integer digits ("0" when there are none), and the fraction without
-\* trailing zeros; no point when the number is whole (3, not 3.0).
+\* How Excel shows the number k/10^j (0 <= j) of moderate magnitude in & and
+\* in the text functions: sign, integer digits ("0" when there are none), and
+\* the fraction without trailing zeros; no point when the number is whole
+\* (3, not 3.0).  General below is the definition for every magnitude.
 Render(k, j) ==
   LET a    == DigitsOf(Abs(k))
       pad  == Zeros(j + 1 - Len(a)) \o a              \* at least j+1 digits
@@ -214,6 +230,69 @@ Render(k, j) ==
       fp   == DropTrailingZeros(SubSeq(pad, Len(pad) - j + 1, Len(pad)), 0)
   IN  (IF k < 0 THEN <<MINUS>> ELSE <<>>) \o ip
         \o (IF fp = <<>> THEN <<>> ELSE <<DOT>> \o fp)
+
+(* The General format: how Excel turns a number into text wherever a text   *)
+(* is wanted (&, CONCATENATE, LEFT, MID, LEN, ...).  The number is           *)
+(*      x = k / 10^j     (any integer j; j < 0 multiplies by 10^(-j)),       *)
+(* an exact decimal.  With m = m1 m2 .. mt its significant digits (no        *)
+(* leading, no trailing zeros) and e its decimal exponent,                   *)
+(*      |x| = m1.m2..mt * 10^e,                                              *)
+(* General shows at most 15 significant digits, in one of two notations:     *)
+(*   positional  "-0.00001", "1234.5", "120000"     (never "3.0")            *)
+(*   scientific  "1E+21", "-2.5E-21": m1[.m2..mt] E sign and at least two    *)
+(*               exponent digits.                                            *)
+(* Which notation is used depends on the width the positional one would     *)
+(* need.  Only the magnitudes where Excel's choice is beyond doubt are       *)
+(* judged (Regime):                                                          *)
+(*   "P" positional: 10^-9 <= |x| < 10^15 (and not more than 20 characters), *)
+(*   "S" scientific: |x| >= 10^20, and |x| < 10^-9 when the positional       *)
+(*       notation would need more than 20 characters (0.00..01 with 19       *)
+(*       zeros after the point: 1E-20),                                      *)
+(*   "U" not judged: 10^15 <= |x| < 10^20 (16..20 digit integers: Excel      *)
+(*       pads the 15 digits with zeros up to some width and switches to the  *)
+(*       exponent somewhere in this range), |x| < 10^-9 in less than 21      *)
+(*       characters (0.0000000001 or 1E-10), and numbers of more than 15     *)
+(*       significant digits (they would have to be rounded; k is a TLC       *)
+(*       integer of at most 10 digits, so they are not enumerated).          *)
+MaxSig   == 15
+MaxWidth == 20
+SigDigits(k) == DropTrailingZeros(DigitsOf(Abs(k)), 1)      \* m (k # 0)
+DecExp(k, j) == Len(DigitsOf(Abs(k))) - 1 - j               \* e (k # 0)
+
+\* characters of the positional notation of m * 10^(e - t + 1), without sign
+PosWidth(m, e) == IF e >= 0 THEN (IF Len(m) > e + 1 THEN Len(m) + 1 ELSE e + 1)
+                  ELSE 1 - e + Len(m)                        \* "0." zeros m
+
+Positional(m, e) ==
+  IF e >= 0
+  THEN LET d == m \o Zeros(e + 1 - Len(m))
+       IN  SubSeq(d, 1, e + 1)
+             \o (IF Len(d) > e + 1 THEN <<DOT>> \o SubSeq(d, e + 2, Len(d)) ELSE <<>>)
+  ELSE <<c0, DOT>> \o Zeros(-e - 1) \o m
+
+Scientific(m, e) ==
+  <<m[1]>> \o (IF Len(m) > 1 THEN <<DOT>> \o Tail(m) ELSE <<>>)
+    \o <<EE, IF e < 0 THEN MINUS ELSE PLUS>>
+    \o (IF Abs(e) < 10 THEN <<c0>> ELSE <<>>) \o DigitsOf(Abs(e))
+
+Regime(k, j) ==
+  IF k = 0 THEN "P"
+  ELSE LET m == SigDigits(k)  e == DecExp(k, j)
+       IN  IF Len(m) > MaxSig THEN "U"
+           ELSE IF e >= -9 /\ e <= 14 /\ PosWidth(m, e) <= MaxWidth THEN "P"
+           ELSE IF e >= 20 THEN "S"
+           ELSE IF e <= -10 /\ PosWidth(m, e) > MaxWidth THEN "S"
+           ELSE "U"
+
+General(k, j) ==
+  IF k = 0 THEN <<c0>>
+  ELSE LET m == SigDigits(k)  e == DecExp(k, j)
+       IN  (IF k < 0 THEN <<MINUS>> ELSE <<>>)
+             \o (IF Regime(k, j) = "S" THEN Scientific(m, e) ELSE Positional(m, e))
+
+\* the state of the machine that stands for the number k/10^j
+NumSrc(k, j)  == <<IF Regime(k, j) = "U" THEN "U" ELSE "N", k, j>>
+NumText(k, j) == IF Regime(k, j) = "U" THEN <<>> ELSE General(k, j)
 
 \* digits of ROUND(a * 10^e / 10^j, 0), half away from zero (a >= 0):
 \* append e zeros, cut the last j digits, add one when the first cut digit
@@ -327,9 +406,9 @@ Occurrences(x, o) == Cardinality(Matches(o, x))
 Init == \/ /\ s \in Seeds
            /\ src = <<"T", 0, 0>>
            /\ fmt = <<>>
-        \/ \E kj \in Nums :
-           /\ s = Render(kj[1], kj[2])
-           /\ src = <<"N", kj[1], kj[2]>>
+        \/ \E kj \in Nums \cup Scaled :
+           /\ s = NumText(kj[1], kj[2])
+           /\ src = NumSrc(kj[1], kj[2])
            /\ fmt = <<>>
         \/ /\ FmtMax > 0
            /\ s = <<>>
@@ -347,20 +426,32 @@ AppendFmt(c) == /\ src[1] = "F"
                 /\ fmt' = Append(fmt, c)
                 /\ UNCHANGED <<s, src>>
 
+\* move the decimal point one place: d = 1 divides by ten, d = -1 multiplies
+ScaledKs == {kj[1] : kj \in Scaled}
+Scale(d) == /\ src[1] \in {"N", "U"}
+            /\ src[2] \in ScaledKs
+            /\ src[3] + d \in ScaleJ
+            /\ s' = NumText(src[2], src[3] + d)
+            /\ src' = NumSrc(src[2], src[3] + d)
+            /\ UNCHANGED fmt
+
 Next == \/ \E c \in Alphabet : AppendChar(c)
         \/ \E c \in FmtChars : AppendFmt(c)
+        \/ \E d \in {-1, 1} : Scale(d)
 
 Spec == Init /\ [][Next]_vars
 
 Slicing == src[1] \in {"T", "N"}            \* states judged by the slicing laws
 Formatting == src[1] = "F" /\ FmtComplete(fmt)
 
-TypeOK == /\ \A i \in 1..Len(s) : s[i] \in 1..24
-          /\ src[1] \in {"T", "N", "F"}
+TypeOK == /\ \A i \in 1..Len(s) : s[i] \in Codes
+          /\ src[1] \in {"T", "N", "U", "F"}
           /\ \A i \in 1..Len(fmt) : fmt[i] \in FmtChars
           /\ FmtPrefixOK(fmt)
           /\ src[1] = "T" => fmt = <<>> /\ Len(s) <= MaxLen
-          /\ src[1] = "N" => fmt = <<>> /\ s = Render(src[2], src[3])
+          /\ src[1] = "N" => /\ fmt = <<>> /\ s = General(src[2], src[3])
+                              /\ Regime(src[2], src[3]) \in {"P", "S"}
+          /\ src[1] = "U" => fmt = <<>> /\ s = <<>> /\ Regime(src[2], src[3]) = "U"
           /\ src[1] = "F" => s = <<>> /\ Len(fmt) <= FmtMax
 
 -----------------------------------------------------------------------------
@@ -498,18 +589,40 @@ ExactLaw == Slicing =>
   /\ Exact(s, Lower(s)) = B(\A i \in 1..Len(s) : s[i] \notin UpperCase)
   /\ \A t \in NewTexts : Exact(s, t) = Exact(t, s) /\ (Exact(s, t) = B(TRUE) <=> s = t)
 
-\* the rendering of k/10^j reads back as k/10^j and has no ".0"
+\* the rendering of k/10^j reads back as k/10^j, has no ".0", no needless
+\* zero and never more than 20 characters after the sign; in the exponent
+\* notation there is one digit before the point and the exponent has a sign
+\* and at least two digits ("1E+21", "2.5E-21", "1E-100")
+IsDigits(d) == \A i \in 1..Len(d) : d[i] \in c0..(c0 + 9)
 RenderLaw == (Slicing /\ src[1] = "N") =>
   LET k == src[2]  j == src[3]
       body == IF k < 0 THEN Tail(s) ELSE s
-      dot  == DotAt(body)
-      ip   == SubSeq(body, 1, dot - 1)
-      fp   == SubSeq(body, dot + 1, Len(body))
+      ePos == IF \E i \in 1..Len(body) : body[i] = EE
+              THEN CHOOSE i \in 1..Len(body) : body[i] = EE ELSE Len(body) + 1
+      mant == SubSeq(body, 1, ePos - 1)          \* all of it in the positional notation
+      expo == SubSeq(body, ePos + 1, Len(body))  \* sign and digits of the exponent
+      dot  == DotAt(mant)
+      ip   == SubSeq(mant, 1, dot - 1)
+      fp   == SubSeq(mant, dot + 1, Len(mant))
+      x10  == IF ePos > Len(body) THEN 0
+              ELSE (IF expo[1] = MINUS THEN -1 ELSE 1) * ValueOf(Tail(expo))
+      \* (ip fp as an integer) * 10^sh = |k|
+      sh   == x10 - Len(fp) + j
   IN  /\ k < 0 <=> s[1] = MINUS
-      /\ ip # <<>> /\ (Len(ip) > 1 => ip[1] # c0)
-      /\ dot <= Len(body) => fp # <<>> /\ fp[Len(fp)] # c0
-      /\ Len(fp) <= j
-      /\ StripZ(ip \o fp \o Zeros(j - Len(fp))) = StripZ(DigitsOf(Abs(k)))
+      /\ Len(body) <= MaxWidth
+      /\ ip # <<>> /\ IsDigits(ip) /\ (Len(ip) > 1 => ip[1] # c0)
+      /\ IsDigits(fp)
+      /\ dot <= Len(mant) => fp # <<>> /\ fp[Len(fp)] # c0
+      /\ (ePos <= Len(body)) <=> Regime(k, j) = "S"
+      /\ ePos <= Len(body) =>
+            /\ Len(ip) = 1 /\ ip[1] # c0
+            /\ Len(expo) >= 3 /\ expo[1] \in {PLUS, MINUS} /\ IsDigits(Tail(expo))
+            /\ Len(expo) > 3 => expo[2] # c0
+            /\ x10 = DecExp(k, j)
+      /\ IF sh >= 0 THEN StripZ(ip \o fp \o Zeros(sh)) = StripZ(DigitsOf(Abs(k)))
+          ELSE StripZ(ip \o fp) = StripZ(DigitsOf(Abs(k)) \o Zeros(-sh))
+      \* for the moderate magnitudes this is the plain decimal rendering
+      /\ (j >= 0 /\ Regime(k, j) = "P") => s = Render(k, j)
 
 \* 32-bit guard for the arithmetic cross-check below
 Fits(a, j, e) == j <= 8 /\ e <= 8 /\ a < 1000000000 \div (2 * Pow10(e))
@@ -610,6 +723,9 @@ ExportText ==
 
 Export ==
   IF Slicing THEN PrintT(ToJson(ExportSlicing))
+  \* a number whose rendering is not judged: the harness only checks that the
+  \* functions agree with each other on it
+  ELSE IF src[1] = "U" THEN PrintT(ToJson([kind |-> "number", src |-> src]))
   ELSE IF Formatting THEN PrintT(ToJson(ExportText))
   ELSE PrintT(ToJson([kind |-> "prefix", fmt |-> fmt]))
 =============================================================================
